@@ -849,6 +849,11 @@ func GuardingEdges(in ssa.Instruction) []CondEdge {
 }
 
 // transparentCalleesOf lists the functions reached from fn through calls the analyses look through.
+// TransparentCalleesOf lists the callees of fn the analyses look through (see TransparentCallee), `depth` levels deep.
+func TransparentCalleesOf(fn *ssa.Function, depth int) []*ssa.Function {
+	return transparentCalleesOf(fn, depth)
+}
+
 func transparentCalleesOf(fn *ssa.Function, depth int) []*ssa.Function {
 	var out []*ssa.Function
 	seen := map[*ssa.Function]bool{fn: true}
